@@ -1,4 +1,24 @@
-"""C40 Client-server access behaves like local access (dbms/mux, dbmsclient.go, dbmsserver.go)"""
+"""C40 Client-server access behaves like local access (dbms/mux, dbmsclient.go, dbmsserver.go)
+
+Findings on gsuneido@90de1df (+ verif hook commit only), each repaired by a `fix:` commit:
+  new  a mux message of 0 bytes => assert panic in the reader goroutine (process exit)
+  new  ReadCount/WriteCount are always 0 through the client-server protocol ("TODO")
+
+Mutation testing (scratch worktree on top of the fix commits, /tmp/mut/run.py,
+`VERIF_SKIP_MC=1 VERIF_REPO=<dir> bin/vcheck C40 quick`, seed 1; "tests" = go test ./dbms/ ./dbms/mux/):
+  M1  flush loses the final flag when the buffer is exactly full   tests ok    VIOLATION (Stall)
+      (restricted to messages starting with byte 1, otherwise TestMux hangs too)
+  M2  reader keys its partial buffers by sessionId & 3             tests FAIL  VIOLATION
+  M3  worker sets WriteBuf.id only for its first task              tests FAIL  VIOLATION
+  M4  conn.write takes the lock only for buffered writes           tests FAIL  VIOLATION
+  M5  a big Write does not flush the buffered bytes first          tests ok    VIOLATION
+  M6  size limit test i+size >= maxSize                            tests ok    VIOLATION (ConnLost)
+  M7  cmdGetOne maps '-' (QueryLast) to Next                       tests ok    VIOLATION
+  M8  cmdUpdate returns the old record offset                      tests ok    VIOLATION
+  M9  client drops the low bit of the row offset                   tests ok    VIOLATION
+  M10 Write1 drops the byte when the buffer is exactly full        tests ok    VIOLATION
+(VERIF_SKIP_MC=1 skips only the exhaustive TLC runs of the unchanged models.)
+"""
 import json, os
 
 META = {
@@ -31,17 +51,27 @@ def run(ctx):
     drv = ctx.go_build("mux")
     trace = ctx.work + "/mux.ndjson"
     nscen = 60 if ctx.thorough() else 12
-    rc, out, summ = ctx.driver(drv, [trace, nscen], timeout=1500, env={"VERIF_FLUSH": "1"})
+    infra = None
+    try:
+        rc, out, summ = ctx.driver(drv, [trace, nscen], timeout=1500, env={"VERIF_FLUSH": "1"})
+    except vlib.Infra as ex:
+        # the driver gave up (harness error): what it recorded until then is still a
+        # real execution; only if that prefix is accepted is this an infrastructure error
+        infra, rc, out, summ = ex, 0, "", {}
     nlines = sum(1 for _ in open(trace)) if os.path.exists(trace) else 0
     if rc == 2 and nlines > 0:
         _crash(trace, rc, out)      # Go panic in the code under test (e.g. the mux reader)
     elif rc != 0:
         raise vlib.Infra("mux driver rc=%d\n%s" % (rc, out[-3000:]))
+    if nlines == 0:
+        raise infra or vlib.Infra("mux driver recorded nothing")
     ctx.sample_trace_lines(trace, 6)
     res = ctx.tlc_trace("TraceMux.tla", "TraceMux.cfg", trace, timeout=1500)
     if not res["accepted"]:
         ctx.report_rejection(trace, res)
         return
+    if infra:
+        raise infra
     if summ.get("messages", 0) < 10 * nscen:
         raise vlib.Infra("mux driver produced too little: %s" % summ)
     # 2b. differential by specification: DbmsLocal vs DbmsClient <-> real server
@@ -50,17 +80,25 @@ def run(ctx):
     drv2 = ctx.go_build("csdiff")
     trace2 = ctx.work + "/csdiff.ndjson"
     nscen2, steps2 = (60, 250) if ctx.thorough() else (12, 200)
-    rc, out, summ2 = ctx.driver(drv2, [trace2, nscen2, steps2], timeout=1500, env={"VERIF_FLUSH": "1"})
+    infra = None
+    try:
+        rc, out, summ2 = ctx.driver(drv2, [trace2, nscen2, steps2], timeout=1500, env={"VERIF_FLUSH": "1"})
+    except vlib.Infra as ex:
+        infra, rc, out, summ2 = ex, 0, "", {}
     nlines = sum(1 for _ in open(trace2)) if os.path.exists(trace2) else 0
     if rc == 2 and nlines > 0:
         _crash(trace2, rc, out)
     elif rc != 0:
         raise vlib.Infra("csdiff driver rc=%d\n%s" % (rc, out[-3000:]))
+    if nlines == 0:
+        raise infra or vlib.Infra("csdiff driver recorded nothing")
     ctx.sample_trace_lines(trace2, 4)
     res = ctx.tlc_trace("TraceCS.tla", "TraceCS.cfg", trace2, timeout=1500)
     if not res["accepted"]:
         ctx.report_rejection(trace2, res)
         return
+    if infra:
+        raise infra
     if summ2.get("ops", 0) < 40 * nscen2 or summ2.get("pairs", 0) < 10 * nscen2:
         raise vlib.Infra("csdiff driver produced too little: %s" % summ2)
     ctx.cov["modelled_ops_local_and_remote"] = summ2.get("ops", 0)
